@@ -214,3 +214,41 @@ Proof.
                sumn (ncols P) (fun j => farkas_term (col P j) y)) by (apply sumn_ext; intros; reflexivity).
   rewrite E5 in Hpos. lra.
 Qed.
+
+(* ---- from the literal reading to "sentinel = no bound" ------------------------ *)
+
+Definition no_sentinel_col (M : Q) (c : icol) (v : Q) : bool :=
+  negb (Qeq_bool (ic_lo c) (- M) && Qeq_bool v (ic_lo c)) &&
+  negb (Qeq_bool (ic_up c) M && Qeq_bool v (ic_up c)).
+Definition no_sentinel (M : Q) (P : ilp) (z : list Q) : bool := forallb2 (no_sentinel_col M) (i_cols P) z.
+
+Lemma forallb2_imp2 {A B} (f g h : A -> B -> bool) l m :
+  (forall a b, f a b = true -> g a b = true -> h a b = true) ->
+  forallb2 f l m = true -> forallb2 g l m = true -> forallb2 h l m = true.
+Proof.
+  intros Himp. revert m; induction l as [|a l IH]; intros [|b m] F G; simpl in *; try discriminate; [reflexivity|].
+  apply andb_true_iff in F. apply andb_true_iff in G. destruct F as [F1 F2]. destruct G as [G1 G2].
+  apply andb_true_iff. split; [apply Himp; assumption | apply IH; assumption].
+Qed.
+
+Theorem kkt_lit_to_inf M P z y v :
+  check_kkt inf_none P z y v = true -> no_sentinel M P z = true ->
+  check_kkt (inf_sentinel M) P z y v = true.
+Proof.
+  unfold check_kkt, no_sentinel. intros H NS.
+  repeat match goal with H : _ && _ = true |- _ => apply andb_true_iff in H; destruct H end.
+  repeat (apply andb_true_iff; split); try assumption.
+  - match goal with H : forallb2 (bound_ok inf_none) _ _ = true |- _ =>
+      revert H; apply forallb2_imp2 with (f := no_sentinel_col M); [|exact NS] end.
+    intros c b _ Hb. unfold bound_ok in *. cbn [inflo infup inf_none inf_sentinel orb] in *.
+    apply andb_true_iff in Hb. destruct Hb as [Hb1 Hb2]. rewrite Hb1, Hb2, !orb_true_r. reflexivity.
+  - match goal with H : forallb2 (fun c zj => dual_ok inf_none _ c zj _) _ _ = true |- _ =>
+      revert H; apply forallb2_imp2 with (f := no_sentinel_col M); [|exact NS] end.
+    intros c b Hn Hd. unfold dual_ok, no_sentinel_col in *. cbn [inflo infup inf_none inf_sentinel negb andb] in *.
+    apply andb_true_iff in Hd. destruct Hd as [D1 D2]. apply andb_true_iff in Hn. destruct Hn as [N1 N2].
+    apply andb_true_iff. split.
+    + apply orb_true_iff in D1. destruct D1 as [D1|D1]; [rewrite D1; reflexivity|].
+      rewrite D1, andb_true_r in *. rewrite N1. apply orb_true_r.
+    + apply orb_true_iff in D2. destruct D2 as [D2|D2]; [rewrite D2; reflexivity|].
+      rewrite D2, andb_true_r in *. rewrite N2. apply orb_true_r.
+Qed.
